@@ -343,9 +343,19 @@ static void do_numsweep(long count)
         }
         *p = 0;
         al_window(0);
-        t = (i & 1) ? cJSON_Parse(lit) : cJSON_ParseWithLength(lit, (size_t)(p - lit)); sweep_numbers++;
-        if (!t || !cJSON_IsNumber(t)) viol("C02", "the RFC 8259 number literal %s is %s", lit, t ? "not decoded to a number" : "rejected");
-        else numobs_add(lit, t->valuedouble, t->valueint);
+        errno = (i & 4) ? ERANGE : 0;                 /* what an earlier conversion left in errno changes nothing */
+        if ((i % 3) == 2) {                            /* the literal inside a document with more than 64 bytes behind it */
+            static char doc[512]; cJSON *n; int dl = snprintf(doc, sizeof(doc), "{\"v\":[%s,\"%s\"],\"w\":%s}", lit, "pppppppppppppppppppppppppppppppppppppppppppppppppppppppppppppppppppppppp", lit);
+            t = (i & 1) ? cJSON_Parse(doc) : cJSON_ParseWithLength(doc, (size_t)dl); sweep_numbers++;
+            n = t ? cJSON_GetArrayItem(cJSON_GetObjectItemCaseSensitive(t, "v"), 0) : NULL;
+            if (!n || !cJSON_IsNumber(n) || !cJSON_IsNumber(cJSON_GetObjectItemCaseSensitive(t, "w"))) viol("C02", "a document holding the RFC 8259 number literal %s is %s", lit, t ? "decoded without that number" : "rejected");
+            else { numobs_add(lit, n->valuedouble, n->valueint); n = cJSON_GetObjectItemCaseSensitive(t, "w"); numobs_add(lit, n->valuedouble, n->valueint); }
+        } else {
+            t = (i & 1) ? cJSON_Parse(lit) : cJSON_ParseWithLength(lit, (size_t)(p - lit)); sweep_numbers++;
+            if (!t || !cJSON_IsNumber(t)) viol("C02", "the RFC 8259 number literal %s is %s", lit, t ? "not decoded to a number" : "rejected");
+            else numobs_add(lit, t->valuedouble, t->valueint);
+        }
+        errno = 0;
         cJSON_Delete(t);
         if (VD.violations > 20) break;
     }
@@ -447,7 +457,8 @@ static void reent_free(void *p)
 }
 static void reentrancy_cases(void)
 {
-    static const char *T[] = { "[1,2,{\"a\":[3,4]}] x", "{\"k\":[1,2,3],\"l\":\"text\"} ]", "[1,2,", "[\"ab\",{\"c\":nul}]", "[[1,2],[3,4]] 5" }; size_t i; cJSON_Hooks h, back;
+    static const char *T[] = { "[1,2,{\"a\":[3,4]}] x", "{\"k\":[1,2,3],\"l\":\"text\"} ]", "[1,2,", "[\"ab\",{\"c\":nul}]", "[[1,2],[3,4]] 5",
+        "[\"\\u00e9\",{\"\\u0041k\":\"x\\ud83d\\ude00\\n\"}]", "{\"a\\u20ac\":[\"\\u0001\",\"plain\"]}", "[\"\\u00e9\"] ", "[1,[2,{\"k\":\"v\"}]]" }; size_t i; cJSON_Hooks h, back;
     h.malloc_fn = al_malloc; h.free_fn = reent_free; back.malloc_fn = al_malloc; back.free_fn = al_free;
     for (i = 0; i < sizeof(T) / sizeof(T[0]); i++) {
         int rnt; for (rnt = 0; rnt < 2; rnt++) {
@@ -459,6 +470,9 @@ static void reentrancy_cases(void)
             if (!t) {
                 if (end < T[i] || end > T[i] + L) viol("C10 C20", "a failing parse whose release hook parses another text reports an error position outside its own buffer");
                 else if (g != end) viol("C10", "a failing parse whose release hook parses another text: reported position and cJSON_GetErrorPtr() differ");
+            } else {
+                if (g != NULL) viol("C10", "after a successful parse (during which a release hook parsed another text) cJSON_GetErrorPtr() is not NULL");
+                if (end < T[i] || end > T[i] + L) viol("C10", "a successful parse reports a parse end outside its buffer");
             }
             cJSON_Delete(t);
             VD_END();
